@@ -1,4 +1,8 @@
+pub mod c02;
 pub mod c03;
+pub mod c04;
+pub mod c05;
+pub mod c06;
 pub mod c13;
 pub mod c14;
 pub mod c18;
@@ -11,7 +15,11 @@ type ReplayFn = fn(&Env, &Case) -> Vec<Violation>;
 
 fn table(prop: &str) -> Option<(RunFn, ReplayFn)> {
     Some(match prop {
+        "C02" => (c02::run, c02::replay),
         "C03" => (c03::run, c03::replay),
+        "C04" => (c04::run, c04::replay),
+        "C05" => (c05::run, c05::replay),
+        "C06" => (c06::run, c06::replay),
         "C13" => (c13::run, c13::replay),
         "C14" => (c14::run, c14::replay),
         "C18" => (c18::run, c18::replay),
